@@ -267,7 +267,7 @@ Definition tokenize_raw : string -> pyres (list token) := tokenize_raw_with tok_
 (* atom_re, written as the deterministic greedy matcher it is equivalent to (TokenTables.atom_re_src is pinned to
    the pattern this was written for; no alternative of the pattern can succeed where the greedy choice fails,
    because the characters that may follow each optional group are disjoint from what the group may still consume):
-     ([1-9][0-9]{0,2})?([A-IK-PR-Zacnopsbt][a-ik-pr-vy]?)(@@|@)?(H[1-4]?)?([+-][1-4+-]?)?(:[0-9]{1,4})?   fullmatch *)
+     ([1-9][0-9]{0,2})?([A-IK-PR-Zacnopsbt][a-ik-pr-vy]?)(@@|@)?(H[1-4]?)?([+-][1-4+-]?)?(:[0-9]+)?   fullmatch *)
 Definition in_range (c : ascii) (a b : ascii) : bool := (code a <=? code c) && (code c <=? code b).
 Definition el_first (c : ascii) : bool :=
   in_range c "A" "I" || in_range c "K" "P" || in_range c "R" "Z" || chr_in c "acnopsbt".
@@ -280,6 +280,13 @@ Fixpoint take_upto (n : nat) (f : ascii -> bool) (l : list ascii) : list ascii *
   match n, l with
   | S k, c :: r => if f c then let '(a, b) := take_upto k f r in (c :: a, b) else ([], l)
   | _, _ => ([], l)
+  end.
+
+(* all leading characters satisfying f *)
+Fixpoint take_while (f : ascii -> bool) (l : list ascii) : list ascii * list ascii :=
+  match l with
+  | c :: r => if f c then let '(a, b) := take_while f r in (c :: a, b) else ([], l)
+  | [] => ([], [])
   end.
 
 Record atom_groups := mkGroups {
@@ -319,7 +326,7 @@ Definition atom_re_match (l : list ascii) : option atom_groups :=
                      end in
     (* mapping *)
     let '(mp, l6) := match l5 with
-                     | ":"%char :: (d1 :: r) => if is_digit d1 then let '(d, r') := take_upto 3 is_digit r in (Some (":"%char :: d1 :: d), r')
+                     | ":"%char :: (d1 :: r) => if is_digit d1 then let '(d, r') := take_while is_digit r in (Some (":"%char :: d1 :: d), r')
                                                 else (None, l5)
                      | _ => (None, l5)
                      end in
